@@ -1,6 +1,7 @@
 import Driver.Util
 import Driver.C04
 import Paroxy.Model.Report
+import Paroxy.Spec.ReportCell
 open Lean Paroxy Paroxy.Filter Paroxy.Costs Paroxy.Report
 
 namespace Driver.C17
@@ -56,6 +57,32 @@ def bucket : Handler := fun j => do
   let d ← getInt j "den"
   pure (Json.str (bucketLabel (costBucket ((n : Rat) / (d : Rat)))))
 
-def handlers : List (String × Handler) := [("rep.run", run), ("rep.bucket", bucket)]
+def parseSpans (j : Json) : Except String (List Span) := do
+  (← j.getArr?).toList.mapM fun p => do
+    match ← intList p with
+    | [a, b] => pure (a, b)
+    | _ => throw "span: [a, b] expected"
+
+/-- `c17.cell`: the text of the Location cell for (width, spans) — `ReportCell.renderCell`. -/
+def cell : Handler := fun j => do
+  let w ← getInt j "width"
+  let spans ← parseSpans (← j.getObjVal? "spans")
+  pure (Json.str (String.ofList (ReportCell.renderCell w.toNat spans)))
+
+/-- `c17.lines`: the model of `textwrap.wrap(s, width, initial_indent=" " * 3)`. -/
+def lines : Handler := fun j => do
+  let w ← getInt j "width"
+  let s ← getStr j "s"
+  pure (Json.arr ((ReportCell.wrapLines w.toNat 3 s.toList).map fun l => Json.str (String.ofList l)).toArray)
+
+/-- `c17.parse`: the spec's reading of a cell (`ReportCell.parseCell`); `null` = unreadable. -/
+def parse : Handler := fun j => do
+  let s ← getStr j "cell"
+  match ReportCell.parseCell s.toList with
+  | none => pure Json.null
+  | some spans => pure (Json.arr (spans.map spanJson).toArray)
+
+def handlers : List (String × Handler) :=
+  [("rep.run", run), ("rep.bucket", bucket), ("c17.cell", cell), ("c17.lines", lines), ("c17.parse", parse)]
 
 end Driver.C17
